@@ -9,7 +9,8 @@
      [0, 2^53] and every integer V.  Nothing is bounded. *)
 From Coq Require Import ZArith List Bool Lia.
 From Coq Require Import Init.Byte.
-From FFS Require Import Base.Res Base.Bytes Crypto.Ecdsa Secp.Model Secp.Spec Secp.Proofs Secp.ProofsChain.
+From FFS Require Import Base.Res Base.Bytes Base.Keccak Crypto.Ecdsa Secp.Model Secp.Spec Secp.Proofs Secp.ProofsChain.
+From FFS Require Import Secp.ProofsReferee Secp.ToyOverflow.
 Import ListNotations.
 Local Open Scope Z_scope.
 
@@ -319,4 +320,289 @@ Proof.
   - apply (proj1 (C05_eip155_wrong_chain Toy.ops toyH toyH_len {| sV := 38; sR := 1; sS := 1 |} [x07] 1 1 (2 ^ 53) (or_intror eq_refl) ltac:(split; discriminate) ltac:(split; discriminate) eq_refl)). discriminate.
   - apply (proj2 (C05_eip155_wrong_chain Toy.ops toyH toyH_len {| sV := 38; sR := 1; sS := 1 |} [x07] 1 1 129 (or_intror eq_refl) ltac:(split; discriminate) ltac:(split; discriminate) eq_refl)). reflexivity.
   - reflexivity.
+Qed.
+
+
+(* =============================================================================================
+   Added in answer to the referee report (design/reviews/C05.md; proofs in Secp/ProofsReferee.v).
+   Nothing above was changed.
+   ============================================================================================= *)
+
+(* 8. (I2) "Signing YIELDS a signature".  One attempt with nonce k succeeds exactly when k, r and s are
+      non-zero mod n (no group law involved) ... *)
+Theorem C05_sign_attempt_iff :
+  forall o d z k,
+    ecdsa_sign o d z k <> None <->
+    (k mod n o <> 0 /\ xcoord o (smul o k (G o)) mod n o <> 0 /\
+     (inv_n o k * (z + xcoord o (smul o k (G o)) mod n o * d)) mod n o <> 0).
+Proof. exact sign_attempt_iff. Qed.
+Print Assumptions C05_sign_attempt_iff.
+
+(* ... and SignDirect answers Ok as soon as one of the first [fuel] nonces of the stream is usable.  [fuel]
+      exists in the model only (btcec's loop is unbounded). *)
+Theorem C05_sign_succeeds :
+  forall o, laws o -> n o < two256 -> forall nonce fuel d msg,
+    (exists j, (j < fuel)%nat /\ ecdsa_sign o d (hash_to_z msg) (nonce d msg j) <> None) ->
+    exists sg, SignDirect o nonce fuel d msg = Ok sg.
+Proof. exact SignDirect_succeeds. Qed.
+Print Assumptions C05_sign_succeeds.
+
+(* 8'. Named witness: the signature is the attempt of the FIRST usable nonce, unpacked. *)
+Theorem C05_sign_first_nonce :
+  forall o, laws o -> n o < two256 -> forall nonce fuel d msg sg,
+    SignDirect o nonce fuel d msg = Ok sg ->
+    exists j e, (j < fuel)%nat /\ ecdsa_sign o d (hash_to_z msg) (nonce d msg j) = Some e /\
+                (forall i, (i < j)%nat -> ecdsa_sign o d (hash_to_z msg) (nonce d msg i) = None) /\
+                sg = sig_of_esig e.
+Proof. exact SignDirect_first_nonce. Qed.
+Print Assumptions C05_sign_first_nonce.
+
+(* 8''. The model's signing has exactly one error, the model-only EOutOfFuel, returned exactly when no
+      nonce below the fuel is usable (where the Go code would keep looping). *)
+Theorem C05_sign_err_only_fuel :
+  forall o, laws o -> n o < two256 -> forall nonce fuel d msg e,
+    SignDirect o nonce fuel d msg = Err e <->
+    (e = EOutOfFuel /\ forall j, (j < fuel)%nat -> ecdsa_sign o d (hash_to_z msg) (nonce d msg j) = None).
+Proof. exact SignDirect_err_only_fuel. Qed.
+Print Assumptions C05_sign_err_only_fuel.
+
+(* 9. (I7) V exactly, on the nonce actually used: V = 27 + 2*[x(kG) >= n] + oddness, hence V in {27,28}
+      IFF the point of the nonce used has x < n.  The guard of C05_sign_V_27_28_partial quantified over
+      all j : nat; here it is about the first usable nonce / the nonces below the fuel only. *)
+Theorem C05_sign_V_exact :
+  forall o, laws o -> n o < two256 -> forall nonce fuel d msg sg,
+    SignDirect o nonce fuel d msg = Ok sg ->
+    exists j e, (j < fuel)%nat /\ ecdsa_sign o d (hash_to_z msg) (nonce d msg j) = Some e /\
+      (forall i, (i < j)%nat -> ecdsa_sign o d (hash_to_z msg) (nonce d msg i) = None) /\
+      sV sg = 27 + (if n o <=? xcoord o (smul o (nonce d msg j) (G o)) then 2 else 0) + (if es_odd e then 1 else 0) /\
+      ((sV sg = 27 \/ sV sg = 28) <-> xcoord o (smul o (nonce d msg j) (G o)) < n o).
+Proof. exact SignDirect_V_exact. Qed.
+Print Assumptions C05_sign_V_exact.
+
+Theorem C05_sign_V_27_28_bounded_partial :
+  forall o, laws o -> n o < two256 -> forall nonce fuel d msg sg,
+    (forall j, (j < fuel)%nat -> xcoord o (smul o (nonce d msg j) (G o)) < n o) ->
+    SignDirect o nonce fuel d msg = Ok sg -> sV sg = 27 \/ sV sg = 28.
+Proof. exact SignDirect_V_27_28_bounded. Qed.
+Print Assumptions C05_sign_V_27_28_bounded_partial.
+
+(* 10. Clauses 1-4 and the codec as ONE statement about the call (no "= Ok sg" premise), under the two
+      guards that remain: a usable nonce below the fuel (model only) and no overflow point among those
+      nonces (the 2^-128 event). *)
+Theorem C05_sign_recover_end_to_end_partial :
+  forall o, laws o -> n o < two256 -> forall H, (forall x, length (H x) = 32%nat) ->
+  forall nonce fuel d msg c,
+    1 <= d < n o -> 0 <= c <= 2 ^ 53 ->
+    (exists j, (j < fuel)%nat /\ ecdsa_sign o d (hash_to_z msg) (nonce d msg j) <> None) ->
+    (forall j, (j < fuel)%nat -> xcoord o (smul o (nonce d msg j) (G o)) < n o) ->
+    exists sg, SignDirect o nonce fuel d msg = Ok sg /\
+      (sV sg = 27 \/ sV sg = 28) /\ 1 <= sR sg < n o /\ 1 <= sS sg < n o /\ 2 * sS sg <= n o /\
+      ecdsa_verify o (pub o d) (hash_to_z msg) (sR sg) (sS sg) = true /\
+      RecoverDirect o H sg msg c = Ok (addr_of o H (pub o d)) /\
+      RecoverDirect o H (UpdateEIP2930 sg) msg c = Ok (addr_of o H (pub o d)) /\
+      RecoverDirect o H (UpdateEIP155 sg c) msg c = Ok (addr_of o H (pub o d)) /\
+      (exists b, CompactRSV sg = Ok b /\ length b = 65%nat /\ DecodeCompactRSV b = Ok sg).
+Proof. exact sign_recover_end_to_end. Qed.
+Print Assumptions C05_sign_recover_end_to_end_partial.
+
+(* 10'. The same through Sign / Recover with the package's concrete hash (Base/Keccak.v: keccak256, whose
+      32-byte length is proved, not assumed) in both places -- message digest and address derivation --
+      and the address written with the independent Spec.spec_address. *)
+Theorem C05_sign_recover_end_to_end_keccak_partial :
+  forall o, laws o -> n o < two256 -> forall nonce fuel d message c,
+    1 <= d < n o -> 0 <= c <= 2 ^ 53 ->
+    (exists j, (j < fuel)%nat /\
+       ecdsa_sign o d (hash_to_z (keccak256 message)) (nonce d (keccak256 message) j) <> None) ->
+    (forall j, (j < fuel)%nat -> xcoord o (smul o (nonce d (keccak256 message) j) (G o)) < n o) ->
+    exists sg, Sign o keccak256 nonce fuel d message = Ok sg /\
+      (sV sg = 27 \/ sV sg = 28) /\ 1 <= sR sg < n o /\ 1 <= sS sg < n o /\ 2 * sS sg <= n o /\
+      ecdsa_verify o (pub o d) (hash_to_z (keccak256 message)) (sR sg) (sS sg) = true /\
+      Recover o keccak256 sg message c = Ok (spec_address keccak256 (xcoord o (pub o d)) (ycoord o (pub o d))) /\
+      Recover o keccak256 (UpdateEIP2930 sg) message c = Ok (spec_address keccak256 (xcoord o (pub o d)) (ycoord o (pub o d))) /\
+      Recover o keccak256 (UpdateEIP155 sg c) message c = Ok (spec_address keccak256 (xcoord o (pub o d)) (ycoord o (pub o d))) /\
+      (exists b, CompactRSV sg = Ok b /\ length b = 65%nat /\ DecodeCompactRSV b = Ok sg).
+Proof. exact sign_recover_end_to_end_keccak. Qed.
+Print Assumptions C05_sign_recover_end_to_end_keccak_partial.
+
+(* 11. (clause 6) The exact complement of C05_tamper_message: a digest CONGRUENT mod n to the signed one
+      recovers the signer's address (z and z + n are both 32-byte digests when z < 2^256 - n; they are
+      the same ECDSA message).  So "a different message never yields the signer" holds per digest class
+      mod n only -- a property of ECDSA, recorded so that the narrowing is a theorem, not a comment. *)
+Theorem C05_same_class_message_recovers :
+  forall o, laws o -> n o < two256 -> forall H, (forall x, length (H x) = 32%nat) ->
+  forall nonce fuel d msg sg msg' V c,
+    1 <= d < n o -> SignDirect o nonce fuel d msg = Ok sg -> (sV sg = 27 \/ sV sg = 28) ->
+    hash_to_z msg' mod n o = hash_to_z msg mod n o -> v_norm V c = Some (sV sg) ->
+    RecoverDirect o H (with_V sg V) msg' c = Ok (addr_of o H (pub o d)).
+Proof. exact same_class_message_recovers. Qed.
+Print Assumptions C05_same_class_message_recovers.
+
+(* 12. (I4) R altered, stated about a GENUINE signature and an ALTERATION (C05_tamper_R_partial mentions
+      neither): the result is the address of another key, or two valid signatures (R, S) and (R', S) of
+      the same digest under the signer's key with R' <> R are exhibited.  Still PARTIAL: the second
+      alternative is not excluded by the group laws (C05_tamper_R_not_algebraic); for secp256k1 clause 8
+      is carried by the differential run (R+1, R<->S) only. *)
+Theorem C05_tamper_R_second_signature_partial :
+  forall o, laws o -> n o < two256 -> forall H, (forall x, length (H x) = 32%nat) ->
+  forall nonce fuel d msg sg r' V c a,
+    1 <= d < n o -> SignDirect o nonce fuel d msg = Ok sg -> r' <> sR sg ->
+    RecoverDirect o H {| sV := V; sR := r'; sS := sS sg |} msg c = Ok a ->
+    other_key o H d a \/
+    (1 <= r' < n o /\ r' <> sR sg /\
+     ecdsa_verify o (pub o d) (hash_to_z msg) r' (sS sg) = true /\
+     ecdsa_verify o (pub o d) (hash_to_z msg) (sR sg) (sS sg) = true).
+Proof. exact tamper_R_second_signature. Qed.
+Print Assumptions C05_tamper_R_second_signature_partial.
+
+(* 13. (I6) The compact codec for EVERY V: what survives is the byte byte(V.Int64()); for V within int64
+      that is V mod 256; a V >= 256 does not round-trip (the format has one byte for it). *)
+Theorem C05_compact_any_V :
+  (forall sg, 0 <= sR sg < two256 -> 0 <= sS sg < two256 ->
+     exists b, CompactRSV sg = Ok b /\ length b = 65%nat /\
+       DecodeCompactRSV b = Ok (with_V sg (to_byte (big_int64 (sV sg)))) /\
+       b = be_fixed 32 (sR sg) ++ be_fixed 32 (sS sg) ++ be_fixed 1 (to_byte (big_int64 (sV sg)))) /\
+  (forall sg, 0 <= sR sg < two256 -> 0 <= sS sg < two256 -> is_int64 (sV sg) = true ->
+     exists b, CompactRSV sg = Ok b /\ DecodeCompactRSV b = Ok (with_V sg (sV sg mod 256))) /\
+  (forall sg b sg', CompactRSV sg = Ok b -> DecodeCompactRSV b = Ok sg' -> 256 <= sV sg -> sg' <> sg).
+Proof. split; [exact compact_any_V|]. split; [exact compact_int64_V|exact compact_loses_high_V]. Qed.
+Print Assumptions C05_compact_any_V.
+
+(* 13'. The EIP-155 form of V through the 65-byte form (V >= 256 from chain id 111 on).  Recovery of the
+      decoded signature with the same chain id still returns the signer -- through the aliasing of known
+      finding C05/v-truncated-to-byte, which is what the package's TestGeneratedKeyRoundTrip relies on -- ... *)
+Theorem C05_compact_eip155_recovers :
+  forall o, laws o -> n o < two256 -> forall H, (forall x, length (H x) = 32%nat) ->
+  forall nonce fuel d msg sg c,
+    1 <= d < n o -> 0 <= c <= 2 ^ 53 -> SignDirect o nonce fuel d msg = Ok sg -> (sV sg = 27 \/ sV sg = 28) ->
+    let V := 35 + 2 * c + (sV sg - 27) in
+    V mod 256 <> 0 -> V mod 256 <> 1 ->
+    exists b, CompactRSV (UpdateEIP155 sg c) = Ok b /\
+              DecodeCompactRSV b = Ok (with_V sg (V mod 256)) /\
+              RecoverDirect o H (with_V sg (V mod 256)) msg c = Ok (addr_of o H (pub o d)).
+Proof. exact compact_eip155_recovers. Qed.
+Print Assumptions C05_compact_eip155_recovers.
+
+(* 13''. ... EXCEPT when the surviving byte is 0 or 1 (chain ids = 110 mod 128 with odd parity, = 111 mod
+      128 with even parity): it is then read as the yParity convention of the OPPOSITE parity, and the
+      decoded signature never recovers the signer's key (it recovers another address or fails).
+      Known finding C05/compact-eip155-byte-0-1 (the harness runs the witness on every run). *)
+Theorem C05_compact_eip155_wrong_parity_refuted :
+  forall o, laws o -> n o < two256 -> forall H, (forall x, length (H x) = 32%nat) ->
+  forall nonce fuel d msg sg c a,
+    1 <= d < n o -> 0 <= c <= 2 ^ 53 -> SignDirect o nonce fuel d msg = Ok sg -> (sV sg = 27 \/ sV sg = 28) ->
+    let V := 35 + 2 * c + (sV sg - 27) in
+    (V mod 256 = 0 \/ V mod 256 = 1) ->
+    exists b, CompactRSV (UpdateEIP155 sg c) = Ok b /\
+              DecodeCompactRSV b = Ok (with_V sg (V mod 256)) /\
+              (RecoverDirect o H (with_V sg (V mod 256)) msg c = Ok a -> other_key o H d a).
+Proof. exact compact_eip155_wrong_parity. Qed.
+Print Assumptions C05_compact_eip155_wrong_parity_refuted.
+
+(* ---------------------------------------------------------------------------------------------
+   Non-vacuity of the additions and of the theorems the referee found without an Example (I8).
+   Toy addresses are 19 zero bytes followed by the point's residue, so the signer (key 5) is ...05. *)
+Definition toyAddr (k : byte) : bytes := repeat x00 19 ++ [k].
+Definition toySg : sigdata := {| sV := 28; sR := 3; sS := 3 |}.
+
+Lemma toy_signs : SignDirect Toy.ops toyNonce 1 5 [x07] = Ok toySg.
+Proof. vm_compute. reflexivity. Qed.
+
+(* the premises "RecoverDirect (tampered) = Ok a" of 4a-4d are satisfiable, with a <> the signer's address;
+   an altered R can recover the signer (R = 4) or another key (R = 5) or fail (R = 2); a digest in the same
+   class mod n (7 and 20 = 7 + 13) recovers the signer *)
+Example C05_tamper_nonvacuous :
+  addr_of Toy.ops toyH (pub Toy.ops 5) = toyAddr x05 /\
+  RecoverDirect Toy.ops toyH toySg [x07] 0 = Ok (toyAddr x05) /\
+  RecoverDirect Toy.ops toyH (with_V toySg 27) [x07] 0 = Ok (toyAddr x01) /\
+  RecoverDirect Toy.ops toyH {| sV := 28; sR := 3; sS := 4 |} [x07] 0 = Ok (toyAddr x06) /\
+  RecoverDirect Toy.ops toyH toySg [x08] 0 = Ok (toyAddr x04) /\
+  RecoverDirect Toy.ops toyH toySg [x14] 0 = Ok (toyAddr x05) /\
+  RecoverDirect Toy.ops toyH {| sV := 28; sR := 4; sS := 3 |} [x07] 0 = Ok (toyAddr x05) /\
+  RecoverDirect Toy.ops toyH {| sV := 28; sR := 5; sS := 3 |} [x07] 0 = Ok (toyAddr x01) /\
+  RecoverDirect Toy.ops toyH {| sV := 28; sR := 2; sS := 3 |} [x07] 0 = Err ELib /\
+  other_key Toy.ops toyH 5 (toyAddr x01).
+Proof.
+  repeat (split; [vm_compute; reflexivity|]).
+  apply (C05_tamper_flip_parity Toy.ops Toy.toy_laws eq_refl toyH toyH_len toyNonce 1%nat 5 [x07] toySg 27 0 (toyAddr x01)).
+  - split; [discriminate|reflexivity].
+  - exact toy_signs.
+  - right; reflexivity.
+  - reflexivity.
+  - vm_compute. reflexivity.
+Qed.
+
+(* C05_other_V_refuted and C05_recover_is_keypair_address instantiated: V = 35 + 2*5 + 1 + 256 = 302 is no
+   legitimate V for chain 5 and recovers the signer; the key pair built from the key bytes [05] has the
+   address recovery returns *)
+Example C05_other_V_refuted_nonvacuous :
+  (forall p, (p = 0 \/ p = 1) -> ~ legit_V p 5 302) /\
+  RecoverDirect Toy.ops toyH (with_V toySg 302) [x07] 5 = Ok (addr_of Toy.ops toyH (pub Toy.ops 5)).
+Proof.
+  assert (Hd : 1 <= 5 < n Toy.ops) by (split; [discriminate|reflexivity]).
+  assert (Hc : 0 <= 5 <= 2 ^ 53) by (split; discriminate).
+  exact (C05_other_V_refuted Toy.ops Toy.toy_laws eq_refl toyH toyH_len toyNonce 1%nat 5 [x07] toySg 5 1 Hd Hc
+           toy_signs (or_intror eq_refl) ltac:(discriminate) eq_refl
+           ltac:(discriminate) ltac:(discriminate) ltac:(discriminate) ltac:(discriminate)).
+Qed.
+
+Example C05_keypair_nonvacuous :
+  exists kp, KeyPairFromBytes Toy.ops toyH [x05] = Ok kp /\ kp_priv Toy.ops kp = 5 /\
+    RecoverDirect Toy.ops toyH (UpdateEIP155 toySg 7) [x07] 7 = Ok (kp_addr Toy.ops kp).
+Proof.
+  destruct (C05_address Toy.ops Toy.toy_laws toyH toyH_len [x05]) as (kp & E & P & _).
+  assert (P5 : kp_priv Toy.ops kp = 5) by (rewrite P; reflexivity).
+  exists kp. split; [exact E|]. split; [exact P5|].
+  refine (proj2 (proj2 (C05_recover_is_keypair_address Toy.ops Toy.toy_laws eq_refl toyH toyH_len toyNonce 1%nat [x05] kp [x07] toySg 7 E _ _ _ _))).
+  - rewrite P5. split; [discriminate|reflexivity].
+  - split; discriminate.
+  - rewrite P5. exact toy_signs.
+  - right; reflexivity.
+Qed.
+
+(* The overflow signatures exist in a group satisfying the laws (ToyOvf: Toy with x(3G) = 16 >= n = 13):
+   with nonce 3 the model signs with V = 30 and recovery rejects that signature (so "V in {27,28}" and
+   "recovery returns the signer" really need their guard); with nonce 2 it signs with V = 27 and recovers.
+   The retry loop: a stream 0, 2, 2, ... is out of fuel with fuel 1 and signs with fuel 2. *)
+Example C05_overflow_and_fuel_nonvacuous :
+  laws ToyOvf.ops /\ n ToyOvf.ops < two256 /\
+  SignDirect ToyOvf.ops toyNonce 1 5 [x07] = Ok {| sV := 30; sR := 3; sS := 3 |} /\
+  n ToyOvf.ops <= xcoord ToyOvf.ops (smul ToyOvf.ops (toyNonce 5 [x07] 0%nat) (G ToyOvf.ops)) /\
+  RecoverDirect ToyOvf.ops toyH {| sV := 30; sR := 3; sS := 3 |} [x07] 0 = Err EInvalidV /\
+  SignDirect ToyOvf.ops (fun _ _ _ => 2) 1 5 [x07] = Ok {| sV := 27; sR := 2; sS := 2 |} /\
+  RecoverDirect ToyOvf.ops toyH {| sV := 27; sR := 2; sS := 2 |} [x07] 0 = Ok (addr_of ToyOvf.ops toyH (pub ToyOvf.ops 5)) /\
+  SignDirect ToyOvf.ops (fun _ _ j => match j with O => 0 | _ => 2 end) 1 5 [x07] = Err EOutOfFuel /\
+  SignDirect ToyOvf.ops (fun _ _ j => match j with O => 0 | _ => 2 end) 2 5 [x07] = Ok {| sV := 27; sR := 2; sS := 2 |}.
+Proof.
+  split; [exact ToyOvf.ovf_laws|]. split; [reflexivity|].
+  repeat (split; [vm_compute; try reflexivity; discriminate|]). vm_compute. reflexivity.
+Qed.
+
+(* The totality theorems are not true by construction: the model's primitives DO panic (FillBytes of a
+   value that does not fit, CompactRSV on it); RecoverDirect answers Err on the same value only because of
+   the range guards (fixes 77938be / f9cc703). *)
+Example C05_model_can_panic :
+  fill_bytes 32 two256 = Panic /\
+  CompactRSV {| sV := 27; sR := two256; sS := 1 |} = Panic /\
+  RecoverDirect Toy.ops toyH {| sV := 27; sR := two256; sS := 1 |} [x07] 0 = Err ERange /\
+  RecoverDirect Toy.ops toyH {| sV := 27; sR := -3; sS := 3 |} [x07] 0 = Err ERange.
+Proof. repeat split; vm_compute; reflexivity. Qed.
+
+(* The EIP-155 form through the compact codec: chain 110, odd parity: V = 256, the byte is 0, the decoded
+   signature recovers ANOTHER address (..01); chain 1001: V = 2038, byte 246, recovers the signer. *)
+Example C05_compact_eip155_nonvacuous :
+  sV (UpdateEIP155 toySg 110) = 256 /\
+  (exists b, CompactRSV (UpdateEIP155 toySg 110) = Ok b /\ DecodeCompactRSV b = Ok (with_V toySg 0)) /\
+  RecoverDirect Toy.ops toyH (with_V toySg 0) [x07] 110 = Ok (toyAddr x01) /\
+  RecoverDirect Toy.ops toyH (UpdateEIP155 toySg 110) [x07] 110 = Ok (toyAddr x05) /\
+  sV (UpdateEIP155 toySg 1001) = 2038 /\
+  (exists b, CompactRSV (UpdateEIP155 toySg 1001) = Ok b /\ DecodeCompactRSV b = Ok (with_V toySg 246)) /\
+  RecoverDirect Toy.ops toyH (with_V toySg 246) [x07] 1001 = Ok (toyAddr x05).
+Proof.
+  split; [reflexivity|]. split.
+  { destruct (CompactRSV (UpdateEIP155 toySg 110)) as [b| |] eqn:E; try (vm_compute in E; discriminate).
+    exists b. split; [reflexivity|]. vm_compute in E. injection E as <-. vm_compute. reflexivity. }
+  split; [vm_compute; reflexivity|]. split; [vm_compute; reflexivity|]. split; [reflexivity|]. split.
+  { destruct (CompactRSV (UpdateEIP155 toySg 1001)) as [b| |] eqn:E; try (vm_compute in E; discriminate).
+    exists b. split; [reflexivity|]. vm_compute in E. injection E as <-. vm_compute. reflexivity. }
+  vm_compute. reflexivity.
 Qed.
